@@ -235,6 +235,12 @@ class Hub:
             if f:
                 f(ev)
 
+    def owner_or_none(self, point):
+        try:
+            return self.owner(point)
+        except AmbiguousPoint:
+            return None
+
     def owner(self, point):
         """the cell whose representative `point` is: by identity of the list object (exact, also when the middle
         child of an odd-K split shares its parent's centre); if the implementation hands out a copy, by value when
